@@ -48,6 +48,8 @@ pub fn labels(q: &Query, obs: &mut Obs) {
         (nested, "nested-filter"),
         (esc, "escape-in-string"),
         (q.segs.len() >= 3, "segments>=3"),
+        (q.segs.len() >= 8, "segments>=8"),
+        (q.segs.len() >= 32, "segments>=32"),
     ] {
         if b {
             obs.label(l);
